@@ -32,7 +32,7 @@ ASSUMPTIONS = [
 ]
 MANIFEST = {
     'level': 'fault_enumeration',
-    'technique': 'runtime monitoring in a virtual-clock session lab: fault injection by a scripted remote BGP speaker, offline checker over the recorded byte/ event log',
+    'technique': 'runtime monitoring in a virtual-clock session lab: fault injection by a scripted remote BGP speaker, offline checker over the recorded byte/ event log; the catalogue of message faults also sent over TCP to the real exabgp process, one fresh connection per (fault, state)',
     'text': 'The (fault kind x session state x active/passive) matrix is enumerated completely against the real reactor over '
     'loopback TCP; for every cell the bytes the remote receives after the injection are framed by the reference and '
     'checked for exactly-one, last, correctly coded NOTIFICATION followed by close. Exhaustive for the catalogue, not for all inputs.',
@@ -211,7 +211,7 @@ def all_cases(tier, seed):
 def plan(tier, seed):
     n = len(all_cases(tier, seed))
     shards = 16
-    return [{'shard': i, 'nshards': shards, 'ncases': n} for i in range(shards)]
+    return [{'shard': i, 'nshards': shards, 'ncases': n} for i in range(shards)] + [{'shard': 900 + i, 'daemon': True, 'part': i, 'parts': 4} for i in range(4)]
 
 
 def judge(res: Result, case, rec):
@@ -323,7 +323,103 @@ def judge(res: Result, case, rec):
     res.count(f'code:{got[0]}/{got[1]}')
 
 
+def run_daemon(desc):
+    """the catalogue of protocol errors sent over TCP to the REAL daemon process, one fresh connection per (fault, state): the
+    NOTIFICATION it answers with (code, subcode), how many, and that it closes afterwards and comes back for the next one"""
+    import time
+
+    from vlib import daemon, exa
+
+    res = Result()
+    cat = catalogue()
+    cells = [(f, st) for f, (data, states, exp) in cat.items() for st in states if data is not None and st != 'midbatch' and not f.startswith('race-') and not f.endswith(':lh0') and not f.endswith(':ext')]
+    mine = [c for i, c in enumerate(cells) if i % desc['parts'] == desc['part']]
+    text = exa.neighbor_text(families=[(1, 1), (2, 1)], extmsg=False, hold=90, extra='    adj-rib-in true;')
+    d = daemon.Daemon(text, env={'exabgp_log_level': 'ERROR'})
+    good = open_body()
+    peer = None
+    try:
+        d.start()
+        for fault, st in mine:
+            data, states, exp = cat[fault]
+            want = exp.get(st, exp.get('*'))
+            cls = f'daemon:{fault}:{st}'
+            wit = {'fault': fault, 'state': st, 'sent': data.hex()[:400], 'expected': sorted(want) if want != 'silent' else 'silent', 'level': 'daemon'}
+            peer = d.accept(timeout=60)
+            t, body = peer.read_message(20)
+            if t != 1:
+                raise daemon.Inconclusive(f'no OPEN from the daemon on a new connection ({t})')
+            if st in ('openconfirm', 'established'):
+                peer.conn.sendall(good)
+                if st == 'established':
+                    peer.send(4)
+                t, body = peer.read_message(20)
+                if t != 4:
+                    raise daemon.Inconclusive(f'no KEEPALIVE after the OPENs ({t} {bytes(body)[:8].hex()})')
+                if st == 'established':
+                    peer.drain(quiet=0.3, limit=5)
+            try:
+                peer.conn.sendall(data)
+            except OSError:
+                pass
+            notifs = []
+            closed = False
+            end = time.monotonic() + 25
+            while time.monotonic() < end:
+                t, body = peer.read_message(1.0)
+                if t == 3:
+                    notifs.append((body[0], body[1]))
+                elif t is None:
+                    closed = True
+                    break
+            peer.close()
+            peer = None
+            wit['received'] = notifs
+            log = d.tail(3000)
+            if not d.alive():
+                res.violation(f'C10/daemon:process-exits:{fault}', 'the daemon exited after a protocol error', dict(wit, log=log[-1500:]), cls)
+                return res
+            if 'exception.unhandled' in log or 'Traceback' in log:
+                res.violation(f'C10/daemon:unhandled-exception:{fault}:{st}', 'the daemon logged an unhandled exception: ' + log[log.find('Traceback') : log.find('Traceback') + 300], dict(wit, log=log[-2500:]), cls)
+                return res
+            if fault == 'unexpected-open' and st == 'established' and not notifs and not closed:
+                res.count('daemon:open-in-established-ignored')  # same reading as in the lab (see judge)
+                res.ok(cls, ('daemon', fault, st, 'ignored'))
+                continue
+            if not closed:
+                res.violation(f'C10/daemon:connection-left-open:{fault}:{st}', f'25 s after {fault} in {st} the connection is still open (NOTIFICATIONs received: {notifs})', wit, cls)
+                continue
+            if want == 'silent':
+                if notifs:
+                    res.violation(f'C10/daemon:answers-notification:{fault}:{st}', f'a NOTIFICATION from the peer was answered with {notifs}', wit, cls)
+                else:
+                    res.ok(cls, ('daemon', fault, st))
+                continue
+            if len(notifs) != 1:
+                res.violation(f'C10/daemon:notification-count:{fault}:{st}', f'{len(notifs)} NOTIFICATIONs for one error: {notifs}', wit, cls)
+            elif notifs[0] not in want:
+                res.violation(f'C10/daemon:wrong-code:{fault}:{st}', f'{fault} in {st} answered {notifs[0]}, expected one of {sorted(want)}', wit, cls)
+            else:
+                res.ok(cls, ('daemon', fault, st))
+                res.ok('daemon:catalogue')
+    except daemon.Inconclusive as e:
+        if d.proc is not None and d.proc.poll() is not None:
+            res.violation('C10/daemon:process-exits', f'the daemon exited (rc {d.proc.poll()}): {str(e)[:200]}', {'log': d.tail(2000)}, 'daemon')
+        else:
+            res.inconclusive.append('daemon: ' + str(e)[:300])
+    finally:
+        try:
+            if peer is not None:
+                peer.close()
+        except Exception:  # noqa
+            pass
+        d.stop()
+    return res
+
+
 def run_shard(desc):
+    if desc.get('daemon'):
+        return run_daemon(desc)
     res = Result()
     cases = all_cases(desc['tier'], desc['seed'])
     mine = [c for i, c in enumerate(cases) if i % desc['nshards'] == desc['shard']]
@@ -347,4 +443,4 @@ def _required():
     return out
 
 
-REQUIRED_CLASSES = {'quick': _required(), 'thorough': _required()}
+REQUIRED_CLASSES = {'quick': _required() + ['daemon:catalogue'], 'thorough': _required() + ['daemon:catalogue']}
